@@ -220,6 +220,7 @@ def check_C01(rep):
             if len(samples) < 3: samples.append({"grammar": run.meta[k]["rules"], "carrier": run.meta[k]["carrier"], "accepted": acc, "rejected": rej, "states": len(real["states"])})
     d12 = rep.notes.get("d12_instances", [])
     if d12: rep.known_finding(D12_TEXT + f" [{len(d12)} grammar(s) this run, e.g. {run.meta[d12[0]]['rules']}]")
+    FX.run_fixed(rep, "big_grammar.cpp", "g++", "-pthread", "verdict-of-a-large-conflict-free-grammar-differs-from-its-language")
     # the DSL glue: symbol lookup by name/id, stable sort by left side, slices - through generated programs
     run3 = h3_stage(rep)
     if run3 is not None:
